@@ -196,6 +196,10 @@ func (f *SecretFactory) newFromBuffer(lb *memguard.LockedBuffer) (*secret, error
 
 	// Set mprotect to none initially
 	if err := f.memcall().Protect(lb.Inner(), memcall.NoAccess()); err != nil {
+		// the pages hold the secret: make them writable again and zero them before they are unlocked and released
+		lb.Melt()
+		lb.Wipe()
+
 		// Shouldn't happen, but free up the resources if it does. We intentionally
 		// ignore the errors from the cleanup and return the reason why we got here.
 		if err2 := memcall.Clean(f.memcall(), lb.Inner()); err2 != nil {
